@@ -391,6 +391,12 @@ func (li *loopInfo) noteWrite(h string, root ssa.Value, depth int) {
 
 // resolveName finds the value of a source-level name for loop li.
 func (f *Frame) resolveName(name string, li *loopInfo) (ssa.Value, *ssa.Alloc, bool) {
+	return f.resolveName2(name, li, false)
+}
+
+// resolveName2 with skipParams resolves "$now.x": the latest definition of the source variable x that
+// reaches the loop, for a parameter that the function reassigns before the loop (s = s[19:]).
+func (f *Frame) resolveName2(name string, li *loopInfo, skipParams bool) (ssa.Value, *ssa.Alloc, bool) {
 	// header phis by variable comment
 	for _, in := range li.head.Instrs {
 		if p, ok := in.(*ssa.Phi); ok && p.Comment == name {
@@ -398,7 +404,7 @@ func (f *Frame) resolveName(name string, li *loopInfo) (ssa.Value, *ssa.Alloc, b
 		}
 	}
 	for _, p := range f.fn.Params {
-		if p.Name() == name {
+		if p.Name() == name && !skipParams {
 			return p, nil, true
 		}
 	}
@@ -562,10 +568,14 @@ func (f *Frame) invEnv(li *loopInfo, phiVal func(*ssa.Phi) Val, st *State, vis m
 			ex.fail("%s: no parameter %s", f.key, a[3:])
 			return a, true
 		}
-		if strings.HasPrefix(a, "$") {
+		skipParams := false
+		if strings.HasPrefix(a, "$now.") {
+			a = a[5:]
+			skipParams = true
+		} else if strings.HasPrefix(a, "$") {
 			return "", false
 		}
-		v, cell, ok := f.resolveName(a, li)
+		v, cell, ok := f.resolveName2(a, li, skipParams)
 		if !ok {
 			// contract-level let definitions
 			if f.contract != nil {
